@@ -205,11 +205,9 @@ def arccos(x):
 
 
 def _arctan(v):
-    # arctan(y/x) is only meaningful to the engine as half of a rotation
-    # angle; the quotient object carries numerator and denominator.
-    if isinstance(v, (int, float)) and v == 0:
-        return Ang({}, 0)
-    raise Unsupported("arctan of a symbolic value (use arctan2-style helper)")
+    if isinstance(v, float) and not (v == 0 or v == 1 or v == -1):
+        return alg._float_angle(_math.atan(v))
+    return alg.sarctan(v)
 
 
 def arctan(x):
@@ -239,7 +237,7 @@ def alg_angle(z: Sx):
         return Ang({}, 0)  # numpy: angle(0) == 0
     hi = h.reciprocal()
     alg._ARC[0] += 1
-    aa = alg.AngAtom(f"angle#{alg._ARC[0]}", (Sx(z.re) * hi).re, (Sx(z.im) * hi).re)
+    aa = alg.AngAtom(f"angle#{alg._ARC[0]}", (Sx(z.re) * hi).re, (Sx(z.im) * hi).re, rng="(-pi,pi]")
     return Ang({aa: 1}, 0)
 
 
